@@ -12,7 +12,6 @@ import (
 	"sort"
 	"strconv"
 	"strings"
-	"time"
 
 	adminapi "github.com/onosproject/onos-api/go/onos/config/admin"
 	configapi "github.com/onosproject/onos-api/go/onos/config/v2"
@@ -65,6 +64,8 @@ func PanicSite(v interface{}) string {
 // Cause maps an error text to the twin's cause names ("" = not a pre-store refusal).
 func Cause(m string) string {
 	switch {
+	case strings.Contains(m, "key ") && strings.HasSuffix(m, " not found"):
+		return "noConfig"
 	case strings.Contains(m, "no updates, replace or deletes"):
 		return "noOps"
 	case strings.Contains(m, "not found") && strings.Contains(m, "object "):
@@ -274,8 +275,8 @@ func (r *Real) Exec(line string) string {
 		if err != nil {
 			return "bad-op"
 		}
-		gctx, cancel := context.WithTimeout(ctx, 30*time.Millisecond)
-		defer cancel()
+		// (a SYNCHRONOUS Get that has to wait is ended by nbenv.CfgDecor, not by a deadline)
+		gctx := ctx
 		var resp *pb.GetResponse
 		c := guarded(func() error { var err error; resp, err = e.Gnmi.Get(gctx, req); return err })
 		if c.panicked {
@@ -430,6 +431,10 @@ func (r *Real) Exec(line string) string {
 			return "panic " + PanicSite(c.pval)
 		}
 		if c.err != nil {
+			m := c.err.Error()
+			if strings.Contains(m, "error getting leaf selection") || strings.Contains(m, "error converting configuration to JSON") {
+				return "reached" // after the configuration was rendered: the value layer's and the plugin's business
+			}
 			if l := errLine(c.err, "noConfig"); l != "" {
 				return l
 			}
